@@ -72,6 +72,27 @@ where
             obs.fail("drawn-map==pixel-data", format!("{name}: {}", map_diff(&got, &exp)));
         }
     }
+    // targets whose bounding box is a window somewhere on the plane (not at the origin): one that just contains the
+    // shown area with a margin of one pixel, one that cuts through it; inside the window the pixels are the image's
+    if aw > 0 && ah > 0 {
+        use embedded_graphics::primitives::Rectangle;
+        let around = Rectangle::new(Point::new(tl.0 - 1, tl.1 - 1), Size::new(aw + 2, ah + 2));
+        let cutting = Rectangle::new(Point::new(tl.0 + (aw / 2) as i32, tl.1 + (ah / 2) as i32), Size::new(aw + 3, ah + 3));
+        for (wname, win) in [("window around the image", around), ("window cutting the image", cutting)] {
+            let mut wd = RecD::<I::Color>::with_box(win);
+            image.draw(&mut wd).unwrap();
+            let mut wn = RecN::<I::Color>::with_box(win);
+            image.draw(&mut wn).unwrap();
+            obs.class_if(win.top_left.x >= win.size.width as i32 || win.top_left.y >= win.size.height as i32, "target-window-far-from-origin");
+            let want: Map<u32> = exp.iter().filter(|(k, _)| win.contains(Point::new(k.0, k.1))).map(|(k, v)| (*k, *v)).collect();
+            for (name, m) in [("draw_iter-only target", &wd.map), ("native target", &wn.map)] {
+                let got: Map<u32> = m.iter().filter(|(k, _)| win.contains(Point::new(k.0, k.1))).map(|(k, c)| (*k, raw_of(*c))).collect();
+                if got != want {
+                    obs.fail("drawn-map==pixel-data-inside-a-target-window", format!("{wname} {:?}, {name}: {}", rt(&win), map_diff(&got, &want)));
+                }
+            }
+        }
+    }
     for (area_n, got) in &dr.drained {
         obs.class("stream-drained");
         if area_n != got {
@@ -182,7 +203,7 @@ fn cases(tier: Tier, part: &str) -> Vec<ImgCase> {
                         contents.push(pattern(2, len));
                     }
                     for (ci, data) in contents.iter().enumerate() {
-                        for (at, center) in [((-2, 3), false), ((4, 1), true)] {
+                        for (at, center) in [((-2, 3), false), ((4, 1), true), ((40, 30), false), ((-1000, 1000), true)] {
                             v.push(ImgCase { bpp, be, w, h, data: data.clone(), sub: None, sub2: None, at, center });
                         }
                         if ci > 0 && contents.len() > 3 {
@@ -210,6 +231,31 @@ fn cases(tier: Tier, part: &str) -> Vec<ImgCase> {
     v
 }
 
+/// images whose rows are 255..=513 pixels wide, with narrow sub-images far from the left edge (row skips beyond 255)
+fn wide_cases(part: &str) -> Vec<ImgCase> {
+    let mut v = vec![];
+    let bpps: Vec<u8> = match part {
+        "sub-byte" => vec![1, 2, 4],
+        _ => vec![8, 16, 24, 32],
+    };
+    for bpp in bpps {
+        for be in [false, true] {
+            for w in [255u32, 256, 257, 264, 300, 320, 513] {
+                let h = 3;
+                let data = pattern(4, required_len(w, h, bpp));
+                let wi = w as i32;
+                v.push(ImgCase { bpp, be, w, h, data: data.clone(), sub: None, sub2: None, at: (-100, 7), center: false });
+                for s in [(3, 0, 16, 3), (wi - 17, 1, 16, 2), (250, 0, 9, 3), (1, 1, w - 1, 2), (0, 0, w, 1), (wi - 1, 0, 5, 3), (-5, -1, 7, 9)] {
+                    v.push(ImgCase { bpp, be, w, h, data: data.clone(), sub: Some(s), sub2: None, at: (5, -3), center: s.2 == 16 });
+                }
+                v.push(ImgCase { bpp, be, w, h, data: data.clone(), sub: Some((1, 0, w - 1, 3)), sub2: Some((wi - 12, 1, 5, 2)), at: (300, 200), center: false });
+                v.push(ImgCase { bpp, be, w, h, data, sub: Some((2, 1, w - 2, 2)), sub2: Some((0, 0, 3, 2)), at: (0, 0), center: false });
+            }
+        }
+    }
+    v
+}
+
 fn run_part(run: &mut Run) {
     let tier = run.tier;
     let part = run.part.clone();
@@ -221,6 +267,7 @@ fn run_part(run: &mut Run) {
                 || cases(tier, &part),
                 check_img,
             );
+            run.sweep_vec("wide-images", "raw widths x 2 data orders x images 255, 256, 257, 264, 300, 320 and 513 px wide and 3 rows high: whole, 7 sub-areas (narrow ones near both ends, overlapping the edges) and 2 nested sub-areas", || wide_cases(&part), check_img);
             if part == "bytes" {
                 run.sweep_vec(
                     "new",
@@ -256,7 +303,7 @@ fn main() {
         assumptions: &["the layout model is written from the documentation (rows padded to whole bytes; LittleEndianMsb0 / BigEndianLsb0), not from the library's bit_position", "bounded to the listed sizes and contents"],
         parts: |_| vec![PartSpec::new("sub-byte", "verif"), PartSpec::new("bytes", "verif")],
         run_part,
-        required_classes: |_| vec!["image", "sub-image", "sub-sub-image", "row-padding", "big-endian-lsb0", "with_center", "sub-area-overlaps-edge", "sub-area-above-last-row", "sub-area-narrower", "sub-area-empty", "stream-drained", "new-accepts", "new-rejects"],
+        required_classes: |_| vec!["image", "sub-image", "sub-sub-image", "row-padding", "big-endian-lsb0", "with_center", "sub-area-overlaps-edge", "sub-area-above-last-row", "sub-area-narrower", "sub-area-empty", "stream-drained", "target-window-far-from-origin", "new-accepts", "new-rejects"],
         crash_is_verdict: false,
     })
 }
